@@ -160,7 +160,15 @@ pub fn evaluate(sc: &CacheSc, h: &Hist, out: &RunOut) -> Vec<Violation> {
     }
   }
 
-  let never_forgets = sc.capacity.map(|c| c >= 1000).unwrap_or(true) && sc.ttl_ns.is_none() && sc.tti_ns.is_none() && !h.evs.iter().any(|e| matches!(e.op, COp::InsertTtl { .. }));
+  // "never forgets": nothing can expire and nothing can be evicted. A literally unbounded cache,
+  // or a capacity far above the working set under a policy without an admission filter
+  // (W-TinyLFU may reject a newcomer long before the cache is full).
+  let no_expiry = sc.ttl_ns.is_none() && sc.tti_ns.is_none() && !h.evs.iter().any(|e| matches!(e.op, COp::InsertTtl { .. }));
+  let no_eviction = match sc.capacity {
+    None => true,
+    Some(c) => c >= 1000 && !sc.default_policy && sc.policy != PolicyKind::TinyLfu,
+  };
+  let never_forgets = no_expiry && no_eviction;
   if let (true, Some(fin)) = (never_forgets, &h.fin) {
     for k in 0..8u8 {
       let kw: Vec<&Write> = writes.iter().filter(|w| w.key == k).collect();
@@ -174,6 +182,7 @@ pub fn evaluate(sc: &CacheSc, h: &Hist, out: &RunOut) -> Vec<Violation> {
               vs.push(viol(sc, "C11", "compute_increment_lost", &[], format!("key {k}: {trues} compute() calls returned true on its only value {id}, final counter is {ctr}")));
             }
           }
+          None if sc.capacity.is_some() => {}
           None => {
             vs.push(viol(sc, "C12", "unbounded_cache_lost_entry", &[], format!("key {k} was written once (value {}), never removed, the cache is unbounded without expiry, yet it is not resident at quiescence", w.id)));
           }
@@ -342,11 +351,19 @@ fn policy_contract(sc: &CacheSc, h: &Hist, vs: &mut Vec<Violation>) {
   if sc.default_policy || sc.policy == PolicyKind::Null {
     return;
   }
-  let mut tracked: BTreeMap<usize, BTreeMap<u8, u64>> = BTreeMap::new();
+  // key -> the costs the policy was told for it since it was (re-)admitted (admission cost
+  // first; access events carry the cost of the entry that was read, which may be older)
+  let mut tracked: BTreeMap<usize, BTreeMap<u8, Vec<u64>>> = BTreeMap::new();
   for p in &h.pol {
     let t = tracked.entry(p.shard).or_default();
     match &p.call {
-      PolCall::Access { .. } => {}
+      PolCall::Access { key, cost } => {
+        if let Some(c) = t.get_mut(key) {
+          if !c.contains(cost) {
+            c.push(*cost);
+          }
+        }
+      }
       PolCall::Admit { key, cost, decision, victims } => {
         for v in victims {
           match t.remove(v) {
@@ -361,29 +378,43 @@ fn policy_contract(sc: &CacheSc, h: &Hist, vs: &mut Vec<Violation>) {
           }
         }
         if decision != "Reject" && !victims.contains(key) {
-          t.insert(*key, *cost);
+          // a re-admission may or may not replace the recorded cost (FIFO keeps the first one)
+          let e = t.entry(*key).or_default();
+          if !e.contains(cost) {
+            e.push(*cost);
+          }
         }
       }
       PolCall::Remove { key } => {
         t.remove(key);
       }
       PolCall::Evict { want, victims, freed } => {
-        let mut sum = 0;
+        let mut lo = 0;
+        let mut hi = 0;
         let mut seen = BTreeSet::new();
+        let mut all_tracked = true;
         for v in victims {
           if !seen.insert(*v) {
             vs.push(viol(sc, "C14", "victim_nominated_twice", &[], format!("shard {}: evict({want}) nominated key {v} twice", p.shard)));
           }
           match t.remove(v) {
-            Some(c) => sum += c,
-            None => vs.push(viol(sc, "C14", "evict_victim_not_tracked", &[], format!("shard {}: evict({want}) nominated key {v} that the policy was not tracking", p.shard))),
+            Some(c) => {
+              lo += c.iter().min().copied().unwrap_or(0);
+              hi += c.iter().max().copied().unwrap_or(0);
+            }
+            None => {
+              all_tracked = false;
+              vs.push(viol(sc, "C14", "evict_victim_not_tracked", &[], format!("shard {}: evict({want}) nominated key {v} that the policy was not tracking", p.shard)))
+            }
           }
         }
-        if sum != *freed && victims.iter().all(|v| seen.contains(v)) {
-          vs.push(viol(sc, "C14", "evict_reported_wrong_cost", &[], format!("shard {}: evict({want}) reported {freed} freed but the recorded costs of its victims {victims:?} sum to {sum}", p.shard)));
+        if all_tracked && (*freed < lo || *freed > hi) {
+          vs.push(viol(sc, "C14", "evict_reported_wrong_cost", &[], format!("shard {}: evict({want}) reported {freed} freed but the costs it was told for its victims {victims:?} sum to between {lo} and {hi}", p.shard)));
         }
-        let remaining: u64 = t.values().sum();
-        if *freed < *want && remaining >= *want - *freed {
+        let remaining: u64 = t.values().map(|c| c.iter().min().copied().unwrap_or(0)).sum();
+        // (W-TinyLFU never nominates keys sitting in its admission window, so "evictable" is
+        // not observable from outside for that policy)
+        if *freed < *want && remaining >= *want - *freed && sc.policy != PolicyKind::TinyLfu {
           vs.push(viol(sc, "C14", "evict_freed_less_than_requested", &[], format!("shard {}: evict({want}) freed only {freed} although tracked keys worth {remaining} remain ({t:?})", p.shard)));
         }
       }
